@@ -249,7 +249,7 @@ func (s *Scope) Decorate(decorator interface{}, opts ...DecorateOption) error {
 	}
 	if dtype.Kind() != reflect.Func {
 		return newErrInvalidInput(
-			fmt.Sprintf("must decorate with a function, got %v (type %v)", decorator, dtype), nil)
+			fmt.Sprintf("must decorate with a function, got %v (type %v)", describeValue(decorator), dtype), nil)
 	}
 	if reflect.ValueOf(decorator).IsNil() {
 		return newErrInvalidInput(
